@@ -70,7 +70,16 @@ func checkCfgCase(c *cfgCase) (diff string) {
 		cfgs = append(cfgs, enc)
 		want = append(want, sp)
 	}
+	var cfgsBefore []ech.Config
+	for _, x := range cfgs {
+		cfgsBefore = append(cfgsBefore, bytes.Clone(x))
+	}
 	list, err := ech.ConfigList(cfgs)
+	for i := range cfgs {
+		if !bytes.Equal(cfgs[i], cfgsBefore[i]) {
+			return fmt.Sprintf("ConfigList modified its input config %d", i)
+		}
+	}
 	if err != nil {
 		return "ConfigList: " + err.Error()
 	}
